@@ -266,7 +266,11 @@ def gen_program(rng, size, maxdepth, nnames=4):
             if k == 'lambda' and fresh and rng.random() < 0.5:
                 for n in rng.sample(range(1, nnames + 1), rng.randint(1, 2)):
                     add('bind', n, 'param')
-                if rng.random() < 0.5:          # a default in the lambda header, often named like one of its parameters
+                # a default in the lambda header, often named like one of its parameters -- only for lambdas written
+                # directly in a statement scope (the static Reference of this harness places header uses of lambdas that
+                # are nested in other expression scopes wrongly; CPython is the judge and would reject the run), and not in
+                # class bodies (known finding scope:lambda-default-in-class-body)
+                if rng.random() < 0.5 and kind(sc[s - 1]) in ('module', 'fn'):
                     add('huse', prog[-1]['n'] if rng.random() < 0.6 else name())
                 continue
             if ph == 'iter':
